@@ -10,7 +10,7 @@ from .values import (Unsupported, Raised, ReturnSignal, BreakSignal, GeneratorSt
                      ClassVal, FuncVal, BoundMethod, PropertyVal, Builtin, Obj, ExcVal, ListVal,
                      NamedTupleClass, NamedTupleVal, StructVal, Opaque, DictVal, SetVal, Stream,
                      SeqVal, Packed, GenVal, IterSource, is_intlike, is_byteslike, is_strlike,
-                     int_term, bytes_term)
+                     int_term, bytes_term, HList, Segment)
 from . import ops, bytesops, dicts
 
 
@@ -66,6 +66,11 @@ def install(it):
             return len(v)
         if isinstance(v, ListVal):
             return len(v.items)
+        if isinstance(v, HList):
+            n = 0
+            for x in v.parts:
+                n = it.binop(ast.Add(), n, b_len(it, [x.seq], {}) if isinstance(x, Segment) else 1)
+            return n
         if isinstance(v, NamedTupleVal):
             return len(v.values)
         if smt.is_bytes_term(v):
@@ -120,7 +125,7 @@ def install(it):
             return 'str'
         if isinstance(v, (tuple, NamedTupleVal)):
             return 'tuple'
-        if isinstance(v, (ListVal, SeqVal)):
+        if isinstance(v, (ListVal, SeqVal, HList)):
             return 'list'
         if isinstance(v, DictVal):
             return 'dict'
@@ -206,12 +211,34 @@ def install(it):
         v = args[0]
         if isinstance(v, SeqVal):
             return v
+        if isinstance(v, HList):
+            return HList(v.parts)
         if isinstance(v, IterSource) and v.kind == 'seqmap':
             from .folds import seqmap_to_seq
             return seqmap_to_seq(it, v)
         if isinstance(v, GenVal):
             from .loops import collect_generator
             return collect_generator(it, v)
+        if isinstance(v, IterSource) and v.kind == 'chain':
+            # list(chain(known..., <comprehension over a symbolic sequence>, known...)): a list
+            # with known elements and symbolic segments
+            from .folds import seqmap_to_seq
+            parts, sym = [], False
+            for a in v.data:
+                a = it.norm_iterable(a)
+                if isinstance(a, IterSource) and a.kind in ('seqmap', 'genexpr0') and \
+                        isinstance(a.data[1], SeqVal) and it.seq_len_unknown(a.data[1]):
+                    parts.append(Segment(seqmap_to_seq(it, a)))
+                    sym = True
+                elif isinstance(a, SeqVal) and it.seq_len_unknown(a):
+                    parts.append(Segment(a))
+                    sym = True
+                elif isinstance(a, HList):
+                    parts.extend(a.parts)
+                    sym = sym or bool(a.segments())
+                else:
+                    it.iterate(a, parts.append)
+            return HList(parts) if sym else ListVal(parts)
         out = []
         it.iterate(v, out.append)
         return ListVal(out)
@@ -587,6 +614,21 @@ def install_methods(it):
     def list_append(it, args, kw):
         args[0].items.append(args[1])
 
+    @M('hlist', 'append')
+    def hlist_append(it, args, kw):
+        args[0].parts.append(args[1])
+
+    @M('hlist', 'insert')
+    def hlist_insert(it, args, kw):
+        from .values import Segment
+        l = args[0]
+        i = smt.as_concrete_int(args[1])
+        if i is None or i < 0:
+            raise Unsupported('hlist.insert at a symbolic or negative index')
+        if any(isinstance(x, Segment) for x in l.parts[:i]) or (i > len(l.parts) and l.segments()):
+            raise Unsupported('hlist.insert beyond a symbolic segment')
+        l.parts.insert(i, args[2])
+
     @M('list', 'extend')
     def list_extend(it, args, kw):
         it.list_extend(args[0], args[1])
@@ -651,6 +693,9 @@ def install_methods(it):
     @M('dict', 'items')
     def dict_items(it, args, kw):
         d = args[0]
+        if getattr(d, 'items_seq', None) is not None:
+            # a dictionary given abstractly (harness): its items in iteration order
+            return d.items_seq
         return ListVal([(k, it.dict_get(d, k)) for k in it.dict_keys(d)])
 
     @M('dict', 'copy')
